@@ -540,6 +540,30 @@ func callChild(kind string, threads int, ref *core.N, boots []*core.N) result {
 	return callChildArg(kind, fmt.Sprint(threads), ref, boots)
 }
 
+// childRoundTrip sends one request line and returns the reply line; on a dead or silent child
+// the outcome to report ("panic:child-died" / "timeout") and false.
+func childRoundTrip(req string) (string, bool) {
+	if child == nil {
+		child = startChild()
+	}
+	if _, err := io.WriteString(child.in, req); err != nil {
+		stopChild()
+		return "panic:child-died", false
+	}
+	select {
+	case l, ok := <-child.lines:
+		if !ok {
+			stopChild()
+			return "panic:child-died", false
+		}
+		return l, true
+	case <-time.After(60 * time.Second):
+		stopChild()
+		timeouts++
+		return "timeout", false
+	}
+}
+
 func callChildArg(kind string, arg string, ref *core.N, boots []*core.N) result {
 	if child == nil {
 		child = startChild()
@@ -582,6 +606,15 @@ func childLoop() {
 			return
 		}
 		f := strings.Split(strings.TrimRight(l, "\n"), "\t")
+		if len(f) == 2 && f[0] == "SESSION" {
+			s, ok := decodeSession(f[1])
+			if !ok {
+				return
+			}
+			w.WriteString(sessionReply(s) + "\n")
+			w.Flush()
+			continue
+		}
 		if len(f) < 4 {
 			return
 		}
@@ -1152,6 +1185,8 @@ func parseDumps(s string) []*core.N {
 }
 
 // Replay re-executes the requests of a corpus / replay file on the real code.
+var replayedSessions = map[string]bool{}
+
 func Replay(c *core.Ctx, lines []string) {
 	for _, l := range lines {
 		if timeouts >= maxTimeouts {
@@ -1203,6 +1238,16 @@ func Replay(c *core.Ctx, lines []string) {
 			threads := 1
 			fmt.Sscanf(f[1], "%d", &threads)
 			doCliFiles(c, threads, parseItemsField(f[2]), parseItemsField(f[3]))
+		case f[0] == "C10.step" && len(f) >= 10:
+			if ss, ok := decodeSession(f[9]); ok {
+				key := f[9]
+				if replayedSessions[key] {
+					continue
+				}
+				replayedSessions[key] = true
+				// a race does not show on every run: up to 10 times while every call is accepted as expected
+				doSession(c, ss)
+			}
 		case f[0] == "C10.log" && len(f) >= 4:
 			r1, err := core.ParseDump(f[1])
 			if err != nil {
@@ -1443,6 +1488,12 @@ func Run(c *core.Ctx) {
 		genCase(c, "lib")
 	}
 	smallFirst, manyTaxa = false, false
+	for i := 0; i < c.Scale(40, 400) && timeouts < maxTimeouts; i++ {
+		sessionCase(c)
+	}
+	for i := 0; i < c.Scale(10, 30) && timeouts < maxTimeouts; i++ {
+		manyTreesCase(c)
+	}
 	if c.Gotree != "" {
 		m := c.Scale(25, 200)
 		for i := 0; i < m && timeouts < maxTimeouts; i++ {
